@@ -93,12 +93,12 @@ def read_task(prop, cfg, tier, seed):
 
         ctx.scenario = read_scenario(
             ctx, E, vars_, entry="vhd", params=lambda mo: {}, call=lambda mo: ["_read", mi(mo, offset), mi(mo, length)],
-            total=lambda mo: mi(mo, explen), g0=lambda mo: mi(mo, offset), spec_at=spec_at, unit=bs, rng=rng, j=j,
+            total=lambda mo: mi(mo, explen), g0=lambda mo: mi(mo, offset), spec_at=spec_at, unit=bs, rng=rng, maxlen=(lambda mo: mi(mo, length)) if cfg.get("tail") else None, j=j,
             prefer=[length <= 16 << 20], sizes=dict(img=lambda mo: mi(mo, fsize)))
         obj = m.VHD(fh)
         res = obj._read(offset, length)
         sv = spec.guest_byte(offset + j, fsize, bs, mem, kind == "dynamic")
-        bad = byte_obligation(res, j, explen, sv, extra=[obj.size != cur])
+        bad = byte_obligation(res, j, explen, sv, extra=[obj.size != cur], maxlen=length if cfg.get("tail") else None)
         if ctx.obligation(bad, "read differs from the guest-visible content"):
             ctx.witness()
 
